@@ -84,6 +84,119 @@ def nat_c(name, n, doc=""):
     return f"/-- {doc or name} -/\ndef {name} : Nat := {int(n)}"
 
 
+
+def c18_tables():
+    """C18: literals of check_xform / check_java_available / _call_validator / ErrorCleaner /
+    xls2xform_convert / main_cli, read from the ASTs of the current source; and the character class of
+    ERROR_MESSAGE_REGEX's path segments, probed on the compiled regex over every code point."""
+    import textwrap
+
+    import pyxform.validators.error_cleaner as ec
+    import pyxform.validators.odk_validate as ov
+    import pyxform.xls2xform as xx
+
+    def fn(obj):
+        obj = getattr(obj, "__func__", obj)
+        return ast.parse(textwrap.dedent(inspect.getsource(obj))).body[0]
+
+    def doc_of(node):
+        return ast.get_docstring(node, clean=False)
+
+    def strs(node):
+        d = doc_of(node)
+        out = []
+        for sub in ast.walk(node):
+            if isinstance(sub, ast.Constant) and isinstance(sub.value, str) and sub.value != d:
+                out.append((getattr(sub, "lineno", 0), getattr(sub, "col_offset", 0), sub.value))
+        return [v for _, _, v in sorted(out)]
+
+    def call_args(node, attr):
+        """string literals passed as first argument of calls `<x>.<attr>(…)`, in source order"""
+        out = []
+        for sub in ast.walk(node):
+            if isinstance(sub, ast.Call) and isinstance(sub.func, ast.Attribute) and sub.func.attr == attr and sub.args:
+                a = sub.args[0]
+                vals = []
+                for c in ast.walk(a):
+                    if isinstance(c, ast.Constant) and isinstance(c.value, str):
+                        vals.append((c.lineno, c.col_offset, c.value))
+                out.append((sub.lineno, sub.col_offset, [v for _, _, v in sorted(vals)]))
+        return [v for _, _, v in sorted(out)]
+
+    parts = []
+    cx = fn(ov.check_xform)
+    parts.append(list_s("c18CheckXformStrings", strs(cx), "string literals of odk_validate.check_xform in source order (timeout, errors prefix, warnings prefix, bad return code)"))
+    cj = strs(fn(ov.check_java_available))
+    parts.append(str_c("c18JavaMissingMsg", max(cj, key=len) if cj else "", "odk_validate.check_java_available: message of the OSError"))
+    cv = fn(ov._call_validator)
+    ints = [c.value for c in ast.walk(cv) if isinstance(c, ast.Constant) and isinstance(c.value, int) and not isinstance(c.value, bool)]
+    parts.append(nat_c("c18ValidatorTimeout", ints[0] if ints else 0, "odk_validate._call_validator: watchdog seconds"))
+    parts.append(list_s("c18ValidatorCommand", strs(cv), "odk_validate._call_validator: literal part of the command line"))
+    # error cleaner
+    regs = {"ERROR_MESSAGE_REGEX": ec.ERROR_MESSAGE_REGEX.pattern, "flags": str(int(ec.ERROR_MESSAGE_REGEX.flags))}
+    parts.append(dict_ss("c18CleanerRegex", regs, "error_cleaner.ERROR_MESSAGE_REGEX source and flags"))
+    seg = []
+    rx = ec.ERROR_MESSAGE_REGEX
+    for cp in range(0x110000):
+        if 0xD800 <= cp <= 0xDFFF:
+            continue
+        if rx.fullmatch("/a/" + chr(cp)):
+            seg.append(cp)
+    parts.append("/-- code points accepted as a path-segment character by ERROR_MESSAGE_REGEX (probed: fullmatch('/a/'+c)) -/\n"
+                 "def c18SegChars : List Nat := [" + ", ".join(str(c) for c in seg) + "]")
+    probes = {
+        "two_segments_needed": rx.fullmatch("/ab") is None and rx.fullmatch("/a/b") is not None,
+        "greedy_all_segments": (rx.search("x /a/b/c/d y") or [""])[0] == "/a/b/c/d",
+        "no_trailing_slash": (rx.search("/a/b/ ") or [""])[0] == "/a/b",
+        "leftmost": (rx.search("//a/b") or [""])[0] == "/a/b",
+    }
+    parts.append(dict_sb("c18RegexShape", probes, "shape probes of ERROR_MESSAGE_REGEX (the Lean scanner assumes all four)"))
+    rt = fn(ec.ErrorCleaner._replace_xpath_with_tokens)
+    sw = call_args(rt, "startswith")
+    ew = call_args(rt, "endswith")
+    parts.append(list_s("c18KeepPrefixes", sw[0] if sw else [], "ErrorCleaner._replace_xpath_with_tokens: matches starting with one of these are kept"))
+    parts.append(list_s("c18KeepSuffixes", ew[0] if ew else [], "… or ending with one of these"))
+    rj = fn(ec.ErrorCleaner._remove_java_content)
+    parts.append(list_s("c18NoiseMarkers", [a[0] for a in call_args(rj, "find") if a], "ErrorCleaner._remove_java_content: a line containing one of these is dropped"))
+    parts.append(list_s("c18ExcPrefixes", [a[0] for a in call_args(rj, "startswith") if a], "ErrorCleaner._remove_java_content: exception-name prefixes removed (in this order)"))
+    ovf = fn(ec.ErrorCleaner.odk_validate)
+    phrase = ""
+    for sub in ast.walk(ovf):
+        if isinstance(sub, ast.Compare) and any(isinstance(o, ast.In) for o in sub.ops) and isinstance(sub.left, ast.Constant):
+            phrase = sub.left.value
+    parts.append(str_c("c18JarfilePhrase", phrase, "ErrorCleaner.odk_validate: message containing this is returned unchanged"))
+    # xls2xform_convert / main_cli
+    xc = strs(fn(xx.xls2xform_convert))
+    parts.append(str_c("c18ItemsetsName", next((s for s in xc if s.endswith(".csv")), ""), "xls2xform_convert: file name of the external choices csv"))
+    parts.append(str_c("c18ItemsetsLog", next((s for s in xc if "%s" in s), ""), "xls2xform_convert: log format"))
+    mc = fn(xx.main_cli)
+    codes, msgs = [], []
+    for sub in ast.walk(mc):
+        if isinstance(sub, ast.Assign) and len(sub.targets) == 1 and isinstance(sub.targets[0], ast.Subscript):
+            t = sub.targets[0]
+            key = t.slice.value if isinstance(t.slice, ast.Constant) else None
+            if isinstance(sub.value, ast.Constant):
+                if key == "code" and isinstance(sub.value.value, int):
+                    codes.append((sub.lineno, sub.value.value))
+                if key == "message" and isinstance(sub.value.value, str):
+                    msgs.append((sub.lineno, sub.value.value))
+    parts.append("/-- main_cli: integers assigned to response[\"code\"], in source order (ok, ok with warnings, failure) -/\n"
+                 "def c18CliCodes : List Nat := [" + ", ".join(str(v) for _, v in sorted(codes)) + "]")
+    parts.append(list_s("c18CliMessages", [v for _, v in sorted(msgs)], "main_cli: strings assigned to response[\"message\"]"))
+    handlers = []
+    for sub in ast.walk(mc):
+        if isinstance(sub, ast.ExceptHandler) and isinstance(sub.type, ast.Name) and sub.type.id != "Exception":
+            lit = call_args(sub, "exception")
+            unl = any(isinstance(c, ast.Call) and isinstance(c.func, ast.Attribute) and c.func.attr in ("unlink", "remove") for c in ast.walk(sub))
+            handlers.append((sub.lineno, sub.type.id, lit[0][0] if lit and lit[0] else "", unl))
+    parts.append("/-- main_cli (plain mode): except handlers in source order: (exception class, logged text, unlinks the output) -/\n"
+                 "def c18PlainHandlers : List (String × String × Bool) := " + lst(
+                     f"({q(n)}, {q(t)}, {'true' if u else 'false'})" for _, n, t, u in sorted(handlers)))
+    parts.append(list_s("c18PlainWarnLog", [a[0] for a in call_args(mc, "warning") if a], "main_cli: literal logger.warning texts"))
+    parts.append(list_s("c18PlainInfoLog", [a[0] for a in call_args(mc, "info") if a], "main_cli: literal logger.info texts"))
+    return parts
+
+
 def main(out_path: str):
     from pyxform import aliases, constants
     from pyxform import question_type_dictionary as qtd
@@ -210,6 +323,9 @@ def main(out_path: str):
             if hasattr(v, "cache_parameters") and getattr(v, "__module__", None) == modname:
                 caches[f"{modname.split('.', 1)[1]}.{name}"] = str(v.cache_parameters()["maxsize"])
     parts.append(dict_ss("lruCacheSizes", dict(sorted(caches.items())), "functools.lru_cache maxsize per cached function"))
+
+    # ---- C18: literals of the validator / CLI state machine (pulled from the function ASTs)
+    parts += c18_tables()
     parts.append("end Pyxv.Gen\n")
     Path(out_path).write_text("\n\n".join(parts))
 
